@@ -342,7 +342,14 @@ def _plumbing_arm(classes, cname, helper_lean):
     objs["S"] = ctor_with_objs(assign(body[2], "S"))
     objs["R"] = ctor_with_objs(assign(body[3], "R"))
     ret = body[4]
-    if not (isinstance(ret, ast.Return) and _src(ret.value) == "R * S * M"):
+    def chain(e):  # `R * S * M` in any association (Compose flattens nested products)
+        if isinstance(e, ast.BinOp) and isinstance(e.op, ast.Mult):
+            return chain(e.left) + chain(e.right)
+        if isinstance(e, ast.Name):
+            return [e.id]
+        raise U("%s._adjoint_linop: return %s" % (cname, _src(e)))
+
+    if not (isinstance(ret, ast.Return) and ret.value is not None and chain(ret.value) == ["R", "S", "M"]):
         raise U("%s._adjoint_linop: return %s" % (cname, _src(ret)))
     return ("let sumAxes := %s\n      let M : Leaf α := %s\n      let S : Leaf α := %s\n      let R : Leaf α := %s\n"
             "      -- `R * S * M`: Compose flattens nested products (`_combine_compose_linops`); the model nests to the right\n"
